@@ -17,7 +17,8 @@ EXPLANATION = (
     "(String -> JsonValue); (W3) in convert_schema the conversion-cache lookup dominates the structural dispatcher and ignores "
     "annotations on both sides; (T3) enabling the builder only adds items: no template has an else-branch on the setting; "
     "(W4) every settings setter (`with_*`) and the conversion cache's insert store what they are given on every path; the only "
-    "condition allowed is an exact-duplicate test (`!list.contains(&item)` on the list itself), never a test on part of the value."
+    "condition allowed is an exact-duplicate test (`!list.contains(&item)` on the list itself), never a test on part of the value; (W5) once a type space exists its settings are only read: every write to a field of the "
+    "settings is inside one of the settings' own setters."
 )
 ASSUMPTIONS = ["conversions of synthesised sub-schemas (merged schemas) are not decided"]
 
@@ -26,12 +27,33 @@ def run(facts, rep, tier):
     c = facts.impl
     run_w4(facts, rep)
 
+    # ------------------------------------------------------------ W5 the settings are frozen once the space exists
+    from lib import field_accesses, is_write
+    acc = field_accesses(c, lambda t: t.endswith("TypeSpaceSettings") or t.endswith("TypeSpaceSettings>"))
+    acc += [a for a in field_accesses(c, lambda t: t.endswith("TypeSpace"), {"settings"})]
+    rep.floor("C14.W5", "accesses to the settings", len(acc), 25)
+    nwr = 0
+    for a in acc:
+        if not is_write(a["how"]):
+            continue
+        nwr += 1
+        fnq = a["fn"]
+        ok = "TypeSpaceSettings::" in fnq or (a["field"] == "settings" and fnq.endswith("TypeSpace::new"))
+        key = "%s.%s:%s" % (fnq, a["field"], "/".join(str(x) for x in a["how"]))
+        key += "#%d" % sum(1 for o in rep.obligations if o["key"].startswith("C14.W5/settings-write:" + key + "#"))
+        rep.ob("C14.W5", "settings-write:" + key, ok, "written by a setter of the settings" if ok else
+               "%s modifies settings.%s (%s) while converting: a setting is honoured for the first use only / differently from one definition to the next" % (fnq, a["field"], "/".join(str(x) for x in a["how"])), a["node"].get("sp"))
+    rep.floor("C14.W5", "writes to the settings (all in setters)", nwr, 8)
+
     # ------------------------------------------------------------ W1 replacement
     reps = []
     for h in c.user_fns():
+        cnh = None
         for n, _ in nodes(h["body"], "mcall"):
-            if n["name"] == "get" and src(n["recv"]).endswith("settings.replace"):
-                reps.append((h, n))
+            if n["name"] == "get" and "TypeSpaceReplace" in c.ty((strip_refs(n["recv"]) or {}).get("ty")):
+                cnh = cnh or Canon(c, h, 4)
+                if cnh.r(n["recv"]).endswith("settings.replace"):
+                    reps.append((h, n))
     if rep.floor("C14.W1", "replacement lookup", len(reps), 1):
         h, look = reps[0]
         cn = Canon(c, h, 5)
